@@ -4,6 +4,7 @@ import asyncio
 import time
 from dataclasses import asdict, dataclass
 from enum import IntEnum
+from typing import Callable
 from wsgiref.handlers import format_date_time
 
 from repid._utils import FROZEN_DATACLASS, SLOTS_DATACLASS
@@ -37,7 +38,7 @@ class HealthCheckServer:
             self._server = await loop.create_server(
                 lambda: _HttpServerProtocol(
                     endpoint_name=self.server_settings.endpoint_name,
-                    status=self.health_status,
+                    get_status=lambda: self.health_status,
                 ),
                 host=self.server_settings.address,
                 port=self.server_settings.port,
@@ -63,10 +64,15 @@ class HealthCheckServer:
 
 
 class _HttpServerProtocol(asyncio.Protocol):
-    def __init__(self, endpoint_name: str, status: HealthCheckStatus) -> None:
+    def __init__(self, endpoint_name: str, get_status: Callable[[], HealthCheckStatus]) -> None:
         super().__init__()
         self.endpoint_name = endpoint_name
-        self.status = status
+        # the status is read when a request is answered, not when the connection was accepted
+        self.get_status = get_status
+
+    @property
+    def status(self) -> HealthCheckStatus:
+        return self.get_status()
 
     def connection_made(self, transport: asyncio.BaseTransport) -> None:
         self.transport: asyncio.WriteTransport = transport  # type: ignore[assignment]
